@@ -154,6 +154,23 @@ Ingest(r, latest) ==
        /\ hist' = [hist EXCEPT ![k] = HAdd(@, r, fs, fd, r.end <= prev)]
        /\ UNCHANGED now
 
+\* A record that lacks one of the configured non-statistics elements (flowEndReason) for a flow that is held
+\* (modelled for single-stream flows): the code takes over the end times, then misses the element and returns
+\* an error - before the statistics and before the expiry queue are touched.  A record that is not newer than
+\* its node's last one is ignored without error before the element is looked for.
+IngestLacking(r, err) ==
+  LET k == r.key IN
+  /\ k \in Held /\ ~NeedsCorrelation(r)
+  /\ LET f    == flows[k]
+         prev == IF f.endD = 0 THEN r.start ELSE f.endD
+         it   == ItemOf(k)
+     IN /\ err = (r.end > prev)
+        /\ flows' = [flows EXCEPT ![k] = [f EXCEPT !.end = IF r.end >= f.end THEN r.end ELSE f.end,
+                                                   !.endS = r.end, !.endD = r.end]]
+        /\ queue' = IF err THEN queue ELSE (queue \ {it}) \cup {[it EXCEPT !.inact = now + InactiveT]}
+        /\ hist' = [hist EXCEPT ![k] = [@ EXCEPT !.stale = TRUE]]     \* outside the arithmetic statement from here on
+  /\ UNCHANGED now
+
 Advance(d) == now' = now + d /\ UNCHANGED << flows, queue, hist >>
 
 \* ResetStatAndThroughputElementsInRecord on key k (done by the application under the lock)
